@@ -437,6 +437,9 @@ impl ClientModel {
                 }
                 Ok(())
             }
+            CAct::PingOnStream { ts, .. } => {
+                return self.check(&CAct::Ping { ts: *ts }, o, outs, fpb, fpa);
+            }
             CAct::PingBurst { ts, n } => {
                 no_events("ping")?;
                 let got: Vec<Option<u32>> = outs.iter().filter_map(|x| match &x.m { M::UserControl { code: 7, timestamp, .. } => Some(*timestamp), _ => None }).collect();
@@ -552,6 +555,7 @@ pub fn actions_for(m: &ClientModel, max_outstanding: usize, extended: bool) -> V
     a.push(CAct::MetaMalformed { msid: m.active.unwrap_or(5), shape: 1 });
     a.push(CAct::Ping { ts: 0x0A0B_0C0D });
     a.push(CAct::PingBurst { ts: 0xFFFF_FFFF, n: 3 });
+    a.push(CAct::PingOnStream { msid: m.active.unwrap_or(7), ts: 77 });
     a.push(CAct::Ack { n: 100 });
     a.push(CAct::UnknownCommand);
     a
